@@ -68,7 +68,7 @@ def run(tier, seed):
     # DESIGN 11.7: these decision functions are regenerated from the Rust source and proved equal to the
     # model's for all inputs; a failure is reported when the check finishes unless a stage below finds a
     # concrete failing input
-    gen_tie.gate(chk, ['timeout_terminate_method'], gate)
+    gen_tie.gate(chk, ['timeout_terminate_method', 'spawn_setup'], gate)
     try:
         rig = e2e.Rig()
     except RuntimeError as ex:
